@@ -380,15 +380,20 @@ func (c *Ctx) helperValues() {
 			continue
 		}
 		r := rs[0]
-		env := &specEnv{r: r, params: map[string]bool{}, locals: map[string]bool{}}
+		var streams []string
+		isStream := map[string]bool{}
 		for _, ps := range r.ParamStreams {
-			env.params[ps.Param] = true
+			streams = append(streams, ps.Param)
+			isStream[ps.Param] = true
 		}
+		env := &specEnv{r: r, params: specParams(fi, streams), locals: map[string]bool{}}
 		sig := fi.Fn.Type().(*types.Signature)
-		for i := 0; i < sig.Params().Len(); i++ {
-			pn := sig.Params().At(i).Name()
-			if !env.params[pn] {
-				env.locals[pn] = true
+		scalarNow := map[string]string{} // pinned name of a scalar parameter -> its name now
+		orig, act := pinnedOf(rootKey(fi), sig)
+		for i := range act {
+			if !isStream[act[i]] {
+				env.locals[orig[i]] = true
+				scalarNow[act[i]] = orig[i]
 			}
 		}
 		want, err := env.parse(helperValueModels[n])
@@ -400,6 +405,16 @@ func (c *Ctx) helperValues() {
 		for i, o := range retStreams(r) {
 			run.Count("helper_values", 1)
 			got := normaliseParams(tm.Of(o))
+			// scalar parameters are compared under their pinned names
+			ren := map[string]sym.Expr{}
+			for now, was := range scalarNow {
+				if now != was {
+					ren[now] = sym.V(was)
+				}
+			}
+			if len(ren) > 0 {
+				got = sym.Subst(got, ren)
+			}
 			ok := sym.Equal(got, want)
 			run.Oblige(ok)
 			if !ok {
